@@ -118,6 +118,7 @@ void simfs_set_cwd(const char *path) { norm(path, cwd); }
 const char *simfs_cwd(void) { return cwd; }
 int simfs_open_fds(void) { int n = 0; for (int i = 0; i < FS_FD_MAX - FS_FD_BASE; i++) n += fsfd[i].used; return n; }
 int simfs_open_dirs(void) { return open_dirs; }
+int simfs_live_temp_files(void) { int n = 0; for (int i = 0; i < nnodes; i++) if (nodes[i].live && nodes[i].is_temp) n++; return n; }
 int simfs_fd_mode(int fd) { return (fd >= FS_FD_BASE && fd < FS_FD_MAX && fsfd[fd - FS_FD_BASE].used) ? nodes[fsfd[fd - FS_FD_BASE].node].mode : -1; }
 
 /* ---- libc entry points ---- */
